@@ -1280,6 +1280,7 @@ func (m *Manager) handleMessage(tm *TaskmanMessage) error {
 		// is in a state in which a mesos Kill call is possible.
 		// Reconcilation tasks are not part of the taskman.roster
 		if mesosStatus.GetReason().String() == "REASON_RECONCILIATION" &&
+			m.roster.getByTaskId(mesosStatus.GetTaskID().Value) == nil &&
 			(mesosState == mesos.TASK_STAGING ||
 				mesosState == mesos.TASK_STARTING ||
 				mesosState == mesos.TASK_RUNNING ||
